@@ -32,6 +32,7 @@ def stepLine (line : String) : String :=
       match CDecode.decode goTables goSlot limit view with
       | .incomplete => "incomplete"
       | .invalid => "invalid"
+      | .panic => "PANIC"
       | .ok m n => s!"ok type={m.type} consumed={n} key={hexOrDash m.key} keys={showKeys m.keys} frags={showFrags m.frags}"
     | _, _ => "bad-op"
   | _ => "bad-op"
